@@ -4,7 +4,7 @@ non-blocking socket) and the field extraction done by the `_handle_*` functions 
 The socket is a queue of `RecvItem`s, as the fake transport of the harness presents it.
 -/
 import Paho.Model.Props
-import Paho.Gen.Consts
+import Paho.Gen.ReaderLimits
 namespace Paho
 
 /-- what successive `recv()` calls will find -/
